@@ -4,16 +4,18 @@
  * mutex and blocks as ONE step, returns with the mutex re-acquired; signal wakes exactly one waiter of
  * THAT condition object chosen nondeterministically - the weakest thing POSIX allows besides spurious
  * wake-ups, which are explored separately, at most VM_SPURIOUS per thread; broadcast wakes all),
- * rwlock (one writer or any number of readers).
+ * rwlock (one writer or any number of readers; no writer preference).
  *
- * All state is kept in side scalars keyed by the object's ADDRESS (registered by *_init before the
- * first spawn); nothing is stored in the glibc unions.  Arrays are only indexed by literals (the model
- * code is unrolled over thread / object indices) so that CBMC's field sensitivity turns them into scalars.
+ * All state is kept in side SCALARS keyed by the object's ADDRESS (registered by *_init before the
+ * first spawn); nothing is stored in the glibc unions; no arrays (vm_tstate_0, vm_tstate_1, ...).
+ * Capacities are compile-time (-DVM_NTHR= -DVM_NMTX= -DVM_NCV= -DVM_NRW=, given through Q(defs=...) so
+ * that all translation units agree): the unrolled model code only mentions objects that exist.
  *
  * Deadlock / lost wake-up: every thread has a state scalar (running / waiting on cv / finished).  The
  * thread that blocks (cond_wait, first atomic step) or finishes (vm_thread_finish) asserts inside its own
  * atomic section that the state it enters is not "somebody unfinished, nobody runnable"; a waiter is
  * runnable only when a signal/broadcast has marked it woken (spurious wake-ups are NOT counted as rescue).
+ * Blocking calls are `assume`s inside an atomic step (CBMC: the thread simply does not proceed).
  */
 #ifndef VM_PTHREAD_MODEL_H
 #define VM_PTHREAD_MODEL_H
@@ -21,13 +23,74 @@
 #include <errno.h>
 #include "verif.h"
 
-#define VM_NTHR 4     /* thread ids 0..3 */
+#ifndef VM_NTHR
+#define VM_NTHR 4     /* thread ids 0..VM_NTHR-1 */
+#endif
+#ifndef VM_NMTX
 #define VM_NMTX 3
+#endif
+#ifndef VM_NCV
 #define VM_NCV  3
+#endif
+#ifndef VM_NRW
 #define VM_NRW  2
+#endif
 #ifndef VM_SPURIOUS
 #define VM_SPURIOUS 0 /* spurious wake-ups allowed per thread */
 #endif
+
+#if VM_NTHR == 1
+#define VM_FOR_T(X) X(0)
+#define VM_FOR_T2(X, k) X(k, 0)
+#elif VM_NTHR == 2
+#define VM_FOR_T(X) X(0) X(1)
+#define VM_FOR_T2(X, k) X(k, 0) X(k, 1)
+#elif VM_NTHR == 3
+#define VM_FOR_T(X) X(0) X(1) X(2)
+#define VM_FOR_T2(X, k) X(k, 0) X(k, 1) X(k, 2)
+#elif VM_NTHR == 4
+#define VM_FOR_T(X) X(0) X(1) X(2) X(3)
+#define VM_FOR_T2(X, k) X(k, 0) X(k, 1) X(k, 2) X(k, 3)
+#else
+#error "VM_NTHR must be 1..4"
+#endif
+#if VM_NMTX == 0
+#define VM_FOR_M(X)
+#elif VM_NMTX == 1
+#define VM_FOR_M(X) X(0)
+#elif VM_NMTX == 2
+#define VM_FOR_M(X) X(0) X(1)
+#elif VM_NMTX == 3
+#define VM_FOR_M(X) X(0) X(1) X(2)
+#else
+#error "VM_NMTX must be 0..3"
+#endif
+#if VM_NCV == 0
+#define VM_FOR_C(X)
+#elif VM_NCV == 1
+#define VM_FOR_C(X) X(0)
+#elif VM_NCV == 2
+#define VM_FOR_C(X) X(0) X(1)
+#elif VM_NCV == 3
+#define VM_FOR_C(X) X(0) X(1) X(2)
+#else
+#error "VM_NCV must be 0..3"
+#endif
+#if VM_NRW == 0
+#define VM_FOR_R(X)
+#define VM_FOR_RT(X)
+#elif VM_NRW == 1
+#define VM_FOR_R(X) X(0)
+#define VM_FOR_RT(X) VM_FOR_T2(X, 0)
+#elif VM_NRW == 2
+#define VM_FOR_R(X) X(0) X(1)
+#define VM_FOR_RT(X) VM_FOR_T2(X, 0) VM_FOR_T2(X, 1)
+#else
+#error "VM_NRW must be 0..2"
+#endif
+
+#define VM_WAIT_RW 200   /* pseudo condition index: blocked on rwlock k = VM_WAIT_RW + k */
+#define VM_WAIT_EV 100   /* blocked on harness event e = VM_WAIT_EV + e */
 
 #define VM_T_NONE     0
 #define VM_T_RUNNING  1
@@ -41,22 +104,29 @@ extern __CPROVER_thread_local int vm_spur_left;  /* remaining spurious wake-ups 
 extern __thread int vm_self, vm_spur_left;
 #endif
 
-extern int vm_tstate[VM_NTHR];   /* VM_T_* */
-extern int vm_twcv[VM_NTHR];     /* condition index a WAITING thread waits on */
-extern int vm_twmtx[VM_NTHR];    /* mutex index it released */
-extern int vm_twoken[VM_NTHR];   /* marked by signal/broadcast */
-extern int vm_mtx_owner[VM_NMTX];  /* 0 free, t+1 owner */
-extern int vm_rw_writer[VM_NRW];   /* 0 none, t+1 writer */
-extern int vm_rw_readers[VM_NRW];  /* number of read holds */
-extern int vm_rw_rheld[VM_NRW][VM_NTHR]; /* read holds per thread */
+/* state scalars: vm_tstate_<t> (VM_T_*), vm_twcv_<t> (condition index a WAITING thread waits on),
+ * vm_twmtx_<t> (mutex index it released), vm_twoken_<t> (marked by signal/broadcast),
+ * vm_mtx_owner_<k> (0 free, t+1 owner), vm_rw_writer_<k> (0 none, t+1), vm_rw_readers_<k>,
+ * vm_rw_rheld_<k>_<t> (read holds per thread), vm_*_addr_<k> (registered object addresses) */
+#define VM_DECL_T(t) extern int vm_tstate_##t, vm_twcv_##t, vm_twmtx_##t, vm_twoken_##t;
+#define VM_DECL_M(k) extern int vm_mtx_owner_##k; extern pthread_mutex_t *vm_mtx_addr_##k;
+#define VM_DECL_C(k) extern pthread_cond_t *vm_cv_addr_##k;
+#define VM_DECL_R(k) extern int vm_rw_writer_##k, vm_rw_readers_##k; extern pthread_rwlock_t *vm_rw_addr_##k;
+#define VM_DECL_RT(k, t) extern int vm_rw_rheld_##k##_##t;
+VM_FOR_T(VM_DECL_T)
+VM_FOR_M(VM_DECL_M)
+VM_FOR_C(VM_DECL_C)
+VM_FOR_R(VM_DECL_R)
+VM_FOR_RT(VM_DECL_RT)
 extern int vm_nmtx, vm_ncv, vm_nrw;
-extern pthread_mutex_t  *vm_mtx_addr[VM_NMTX];
-extern pthread_cond_t   *vm_cv_addr[VM_NCV];
-extern pthread_rwlock_t *vm_rw_addr[VM_NRW];
-/* ghost records of the last calls (sequential effect queries) */
-extern int vm_last_wait_cv, vm_last_wait_mtx, vm_nsignal, vm_nbroadcast, vm_nwoken_last;
 
-int vm_mtx_index(const pthread_mutex_t *m);
+#ifdef VM_PT_GHOST
+/* ghost records of the last calls (sequential effect queries only) */
+extern int vm_last_wait_cv, vm_last_wait_mtx, vm_nsignal, vm_nbroadcast, vm_nwoken_last;
+extern int vm_nsig_cv[4], vm_nbc_cv[4];
+#endif
+
+int vm_mtx_index(const pthread_mutex_t *m);   /* -1: not a registered object */
 int vm_cv_index(const pthread_cond_t *c);
 int vm_rw_index(const pthread_rwlock_t *r);
 
@@ -65,7 +135,17 @@ void vm_thread_register(int t);   /* before the spawn: thread t takes part (stat
 void vm_thread_begin(int t);      /* first statement of thread t */
 void vm_thread_finish(void);      /* last statement: holds nothing, no deadlock left behind */
 int  vm_all_finished(void);       /* to be called inside an atomic section */
+void vm_set_waiting(int t, int ci, int mi);  /* sequential effect queries: put thread t into the waiter set of cv ci */
+int  vm_is_woken(int t);
+void vm_event_set(int ev);        /* harness-level events 0..1 (rendezvous); waiting threads take part in the deadlock check */
+void vm_event_wait(int ev);
+int  vm_mutex_owner(int mi);      /* 0 free, t+1 */
+int  vm_rwlock_writer(int ri);
+int  vm_rwlock_readers(int ri);
 
+#ifdef VM_CW_HOOK
+void VM_CW_HOOK(int ci, int mi);   /* -DVM_CW_HOOK=fn: replaces the blocking part of cond_wait (inductive sequential queries) */
+#endif
 #ifdef VM_PT_FAULTS
 /* sequential return-code queries: when vm_fault_armed != 0 the NEXT model call performs nothing and
  * returns vm_fault_code (a symbolic non-zero error number chosen by the harness) */
